@@ -797,3 +797,17 @@ CORPUS += [
     V("C19", "eq-fjsp-reader-reassociated", FPF, "        num_pairs = int(line[idx]) * 2\n        machines = line[idx + 1 : idx + 1 + num_pairs : 2]\n        durations = line[idx + 2 : idx + 2 + num_pairs : 2]",
       "        n2 = 2 * int(line[idx])\n        machines = line[1 + idx : idx + n2 + 1 : 2]\n        durations = line[2 + idx : 2 + idx + n2 : 2]\n        num_pairs = n2", None),
 ]
+
+# ---- defects F14-F16 (found after the rank / padding rules were strengthened): re-introducing them must fire
+_MT = R + "mtsp/env.py"
+_MD = R + "mdcpdp/env.py"
+CORPUS += [
+    V("C04", "mtsp-legs-added-while-padded-again", _MT, '        current_length = td["current_length"] + get_distance(cur_loc, prev_loc) * (\n            ~was_done\n        )', '        current_length = td["current_length"] + get_distance(cur_loc, prev_loc)', "C04.c"),
+    V("C03", "mtsp-return-leg-while-padded", _MT, "            done & ~was_done,\n", "            done,\n", None),   # cur == depot on a padding step: the extra term is dist(depot, depot) = 0
+    V("C03", "mtsp-legs-added-while-padded-again-c03", _MT, '        current_length = td["current_length"] + get_distance(cur_loc, prev_loc) * (\n            ~was_done\n        )', '        current_length = td["current_length"] + get_distance(cur_loc, prev_loc)', "C03.d"),
+    V("C04", "mdcpdp-step-length-rank1-again", _MD, "current_step_length = self.get_distance(prev_loc, curr_loc).unsqueeze(-1)", "current_step_length = self.get_distance(prev_loc, curr_loc)", "C04.a"),
+    V("C04", "eq-mdcpdp-step-length-none-index", _MD, "current_step_length = self.get_distance(prev_loc, curr_loc).unsqueeze(-1)", "current_step_length = self.get_distance(prev_loc, curr_loc)[..., None]", None),
+    V("C06", "mtvrp-checker-capacity-rank2-again", R + "mtvrp/env.py", 'used_cap <= td["vehicle_capacity"][:, 0]', 'used_cap <= td["vehicle_capacity"]', "C06.f"),
+    V("C04", "mtvrp-checker-capacity-rank2-again-c04", R + "mtvrp/env.py", 'used_cap <= td["vehicle_capacity"][:, 0]', 'used_cap <= td["vehicle_capacity"]', "C04.a"),
+    V("C06", "eq-mtvrp-checker-capacity-squeeze", R + "mtvrp/env.py", 'used_cap <= td["vehicle_capacity"][:, 0]', 'used_cap <= td["vehicle_capacity"].squeeze(-1)', None),
+]
